@@ -43,7 +43,7 @@ func (c14) Describe() CheckInfo {
 		},
 		RealCode:       []string{"gopatch main()/mainCmd.Run, patchRunner, patch.Parse/File.Apply, internal/engine (compiled program, dotAssoc maps), go/token.FileSet shared across files and calls"},
 		Stubs:          []string{"package os", "path/filepath walk", "io/ioutil", "choice of which caller goroutine runs next (simrt scheduler)"},
-		RequiredProbes: []string{"cli-grouped-vs-solo", "cli-permutation", "cli-unparseable-neighbour", "cli-repeat-identical", "hist-call", "hist-failing-call", "hist-result-held", "sched-run", "sched-overlap", "sched-preempt-sweep", "sched-concurrent-parse", "sched-pct", "sched-two-switch-site-uniform", "race-log-checked", "sched-same-filename", "cli-respelled-duplicate", "cli-module-root-in-tree", "cli-two-packages-in-one-directory"},
+		RequiredProbes: []string{"cli-grouped-vs-solo", "cli-permutation", "cli-unparseable-neighbour", "cli-repeat-identical", "hist-call", "hist-failing-call", "hist-result-held", "sched-run", "sched-overlap", "sched-preempt-sweep", "sched-concurrent-parse", "sched-pct", "sched-two-switch-site-uniform", "race-log-checked", "sched-same-filename", "cli-respelled-duplicate", "cli-module-root-in-tree", "cli-two-packages-in-one-directory", "cli-more-files-than-descriptors"},
 	}
 }
 
@@ -244,6 +244,25 @@ func c14GenCLI(r *world.PRNG, seed uint64, i int) *Case {
 		}
 		c.Extra["module"] = "1"
 	}
+	if r.Chance(1, 12) {
+		// more files than the process may hold open at once: what is opened for one
+		// file must be closed before the next
+		ch := all[0]
+		for k := 0; k < r.Range(24, 40); k++ {
+			o := GoFileOpts{Funcs: 1, Style: "canonical"}
+			if ch.T.Decl != nil {
+				o.Decls = append(o.Decls, ch.T.Decl(r, ch.K))
+			} else {
+				o.Stmts = append(o.Stmts, ch.T.Stmt(r, ch.K))
+			}
+			if ch.T.Imports != nil {
+				o.Imports = append(o.Imports, ch.T.Imports(ch.K)...)
+			}
+			c.AddFile(fmt.Sprintf("many/m%02d.go", k), GenValidGoFile(r, o), "match", nil, "many")
+		}
+		c.Spec.Knobs.MaxOpenFiles = r.Range(8, 16)
+		c.Extra["fd_limit"] = "1"
+	}
 	AddDecoys(c, r)
 	if r.Chance(1, 5) {
 		AddHardlinkTarget(c, r)
@@ -408,6 +427,9 @@ func c14EvalCLI(env *Env, c *Case) []Violation {
 	}
 	if c.Extra["mixed_packages"] == "1" {
 		env.Probe("cli-two-packages-in-one-directory")
+	}
+	if c.Extra["fd_limit"] == "1" {
+		env.Probe("cli-more-files-than-descriptors")
 	}
 	var wantPrint bytes.Buffer
 	anyFail := false
